@@ -19,6 +19,10 @@ def export_pairs(tier, d):
                     raise vf.Infra("SqliteModel.tla obligations fail for %s (specification bug):\n%s" % (s, r.out[-2500:]))
                 n += json.loads(vf.tla_prints(r, "STATS")[0][1])["all"]
                 fo.write(open(os.path.join(r.dir, "pairs.ndjson")).read())
+                rp = os.path.join(r.dir, "refuse.ndjson")
+                if os.path.exists(rp):
+                    with open(os.path.join(d, "refuse.ndjson"), "a") as fr:
+                        fr.write(open(rp).read())
     finally:
         for r in rs:
             vf.rm(r.dir)
@@ -45,6 +49,7 @@ def run_engine(tier, cli_every=0, inline_updown=False):
     if inline_updown:
         env["VERIF_INLINE"] = "1"     # C17: up / down with an inspected inline-UNIQUE database as the desired state
     d = vf.scratch("eng")
+    env["VERIF_REFUSE"] = os.path.join(d, "refuse.ndjson")   # inadmissible pairs: run through the CLI when a CLI slice is requested
     try:
         pairs, n = export_pairs(tier, d)
         out = os.path.join(d, "o.ndjson")
